@@ -178,6 +178,17 @@ pub fn read_paths<T: ReadTxn>(h: &Handle, txn: &T, kind: OffsetKind) -> Result<u
                 if sib[..] != ids[i + 1..] {
                     return Err(format!("xml siblings of child {} = {:?}, children after it = {:?}", i, sib, &ids[i + 1..]));
                 }
+                // the same iterator driven from its back end only walks the previous siblings
+                // (nearest first); mixed front/back use shares one cursor and is not compared
+                let mut back: Vec<String> = match c {
+                    XmlOut::Element(e) => e.siblings(txn).rev().map(|s| format!("{:?}", s.id())).collect(),
+                    XmlOut::Text(e) => e.siblings(txn).rev().map(|s| format!("{:?}", s.id())).collect(),
+                    XmlOut::Fragment(_) => ids[..i].iter().rev().cloned().collect(),
+                };
+                back.reverse();
+                if back[..] != ids[..i] {
+                    return Err(format!("xml siblings (backwards) of child {} = {:?}, children before it = {:?}", i, back, &ids[..i]));
+                }
                 let par = match c {
                     XmlOut::Element(e) => e.parent().map(|p| format!("{:?}", p.id())),
                     XmlOut::Text(e) => e.parent().map(|p| format!("{:?}", p.id())),
